@@ -63,10 +63,7 @@ func genPES(t *rapid.T, maxData int) ref.PES {
 	default:
 		p.Stuffing = rapid.IntRange(0, 255-needed).Draw(t, "stuffing")
 	}
-	minData := 0
-	if !ref.PESHasOptionalHeader(p.StreamID) {
-		minData = 1
-	}
+	minData := 0 // "any payload": also none at all (a six-byte PES packet for the ids without optional header)
 	p.Data = genBytes(t, minData, maxData, "data")
 	return p
 }
@@ -225,6 +222,22 @@ func c11Transport(c CaseC11) *hx.Failure {
 		}
 		return nil
 	}
+	if c.FlipBit < 0 && !ref.PESHasOptionalHeader(p.StreamID) && p.StreamID != 0xBC && c.PaySize >= 6 {
+		// these stream ids have no optional header, hence no data_alignment_indicator: the byte behind
+		// PES_packet_length is data, and the aligned-start helper has nothing to report
+		if ok || len(data) != 0 {
+			return hx.Failf("aligned-nohdr", "AlignedPUSI returned (%d bytes, %v) for stream_id %#x, which has no optional header and no data_alignment_indicator (%s)", len(data), ok, p.StreamID, what)
+		}
+	}
+	if c.FlipBit < 0 && ref.PESHasOptionalHeader(p.StreamID) && p.StreamID != 0xBC && c.PaySize >= 7 && c.PaySize < 9+p.HeaderDataLength() {
+		// the header is cut by the end of the packet (it continues in the next one): no byte of this packet is PES data
+		if len(data) != 0 {
+			return hx.Failf("aligned-data-cut", "AlignedPUSI returned %d bytes of 'data' although the %d-byte PES header is cut after %d bytes (%s)", len(data), 9+p.HeaderDataLength(), c.PaySize, what)
+		}
+		if h2, err2 := pes.NewPESHeader(clone(payload)); err2 == nil && len(h2.Data()) != 0 {
+			return hx.Failf("pes-data-cut", "NewPESHeader on the first %d bytes of a %d-byte PES header: Data() returns %d bytes (%x...), none of them is data (%s)", c.PaySize, 9+p.HeaderDataLength(), len(h2.Data()), head(h2.Data(), 8), what)
+		}
+	}
 	// complete header inside this packet, stream id with the optional header
 	if c.FlipBit < 0 && ref.PESHasOptionalHeader(p.StreamID) && p.StreamID != 0xBC && c.PaySize >= 9+p.HeaderDataLength() {
 		if ok != p.Align {
@@ -269,10 +282,10 @@ func checkC11(c CaseC11, x *hx.Ctx) *hx.Failure {
 var propC11 = hx.Register(hx.Prop[CaseC11]{ID: "C11", Gen: genC11, Check: checkC11})
 
 func c11Rule() {
-	hx.Rec("C11").SetRule("cases: a reference-model PES packet start (any stream_id biased to the ids without optional header, any PES_packet_length, flag bits, PTS_DTS_flags in {00,10,11} with boundary-bit 33-bit timestamps, optional ESCR/ES_rate/trick/copy-info/CRC/extension fields of the correct sizes, header stuffing up to PES_header_data_length 255, 0..160 data bytes) carried in a transport packet (PUSI on/off, payload size 0..184 via adaptation-field stuffing, start-code prefix intact or with one bit flipped). Oracle: the model for every PESHeader getter and Data(); packet.PESHeader returns the payload iff PUSI and payload >= 4 bytes and prefix 00 00 01; pes.AlignedPUSI returns (data, true) iff additionally data_alignment_indicator is set. Enumerated: all 256 stream ids x 3 timestamp modes x PES_header_data_length 0..255 (sampled stuffing grid in quick). Non-trivial: stream id without optional header, or header_data_length larger than the timestamps, or a DTS with bit 32 set.",
+	hx.Rec("C11").SetRule("cases: a reference-model PES packet start (any stream_id biased to the ids without optional header, any PES_packet_length, flag bits, PTS_DTS_flags in {00,10,11} with boundary-bit 33-bit timestamps, optional ESCR/ES_rate/trick/copy-info/CRC/extension fields of the correct sizes, header stuffing up to PES_header_data_length 255, 0..160 data bytes) carried in a transport packet (PUSI on/off, payload size 0..184 via adaptation-field stuffing, start-code prefix intact or with one bit flipped). Oracle: the model for every PESHeader getter and Data(); packet.PESHeader returns the payload iff PUSI and payload >= 4 bytes and prefix 00 00 01; pes.AlignedPUSI returns (data, true) iff additionally data_alignment_indicator is set (never for the ids without optional header; no data when the header is cut by the packet end). Enumerated: all 256 stream ids x 3 timestamp modes x PES_header_data_length 0..255 (sampled stuffing grid in quick). Non-trivial: stream id without optional header, or header_data_length larger than the timestamps, or a DTS with bit 32 set.",
 		"stream id 0xBC (program_stream_map): only prefix and id asserted (not in the statement's list)",
 		"for ids without the optional header at least one data byte follows (the decoder requires 7 bytes)",
-		"AlignedPUSI/Data are asserted only when the complete header lies inside the packet payload and the id has the optional header; nil and empty data are equal; PTS_DTS_flags 01 not generated")
+		"when the PES header is cut by the end of the packet only 'no data is returned' is asserted; nil and empty data are equal; PTS_DTS_flags 01 not generated")
 }
 
 func TestC11(t *testing.T) {
